@@ -725,6 +725,23 @@ def complex_cases(rng, tier):
     for name in ("reciprocal", "square", "negative", "conj", "real", "imag", "abs", "absolute", "angle", "exp", "sin", "cos", "log", "sqrt", "tanh"):
         add(name, "generic", (lambda m, a, name=name: getattr(m, name)(a)), [gz], [0], False)
     add("power", "complex**int", (lambda m, a: m.power(a, 3)), [gz], [0], False)
+    # every real / complex mix of base and exponent, each argument differentiated (bases away from the branch cut)
+    cbase = onp.array([0.8 + 1.3j, 0.4 + 0.7j, 1.5 - 0.2j])
+    rbase = onp.array([0.8, 1.7, 2.5])
+    cexp = onp.array([0.3 - 0.5j, 1.2 + 0.4j, -0.6 + 0.2j])
+    rexp = onp.array([1.7, 0.6, -1.3])
+    for bn, bs in (("complex base", cbase), ("real base", rbase)):
+        for en, es in (("complex exponent", cexp), ("real exponent", rexp)):
+            if bn == "real base" and en == "real exponent":
+                continue
+            add("power", "%s, %s" % (bn, en), (lambda m, a, b: m.power(a, b)), [bs, es], [0, 1], False)
+            add("op**", "%s, %s" % (bn, en), (lambda m, a, b: a ** b), [bs, es], [0, 1], False)
+    add("power", "complex base, Python float exponent", (lambda m, a, b: m.power(a, b)), [cbase, 1.7], [0, 1], False)
+    add("op**", "constant complex base 2j ** y", (lambda m, b: (2j) ** b), [rexp], [0], False)
+    add("op**", "constant real base 2.5 ** complex y", (lambda m, b: 2.5 ** b), [cexp], [0], False)
+    add("exp", "complex exponent", (lambda m, b: m.exp(b * (1.0 + 0.5j))), [cexp], [0], False)
+    add("log", "complex argument", (lambda m, a: m.log(a)), [cbase], [0], False)
+    add("sqrt", "complex argument", (lambda m, a: m.sqrt(a)), [cbase], [0], False)
     for name, f, args in (
         ("sum", lambda m, a: m.sum(a, axis=0), [z23]),
         ("dot", lambda m, a, b: m.dot(a, b), [z23, w32]), ("dot", lambda m, a, b: m.dot(a, b), [r23, w32]),
